@@ -185,6 +185,9 @@ pub struct DevInner {
     pub fail_kind: Option<Kind>,
     /// the injected error is DevErr::Interrupted instead of DevErr::Injected
     pub fail_interrupted: bool,
+    /// the fault repeats on this many device calls after the first one (a storage that reports "interrupted" several
+    /// times in a row before the call goes through)
+    pub fail_burst: u64,
     pub log_calls: bool,
     pub log: Vec<Call>,
     /// ordered list of (offset, data) of every write, for crash images
@@ -234,6 +237,7 @@ impl MemDev {
             fired: None,
             fail_kind: None,
             fail_interrupted: false,
+            fail_burst: 0,
             log_calls: false,
             log: Vec::new(),
             log_data: false,
@@ -324,6 +328,9 @@ impl DevInner {
             self.log.push(c);
         }
         if let Some(k) = self.fail_at {
+            if self.fired.is_some() && self.fail_burst > 0 && self.calls > k && self.calls <= k + self.fail_burst {
+                return Err(if self.fail_interrupted { DevErr::Interrupted } else { DevErr::Injected(self.fail_tag) });
+            }
             if self.calls == k && self.fired.is_none() && self.fail_kind.map_or(true, |fk| fk == kind) {
                 self.fired = Some(c);
                 if self.fail_interrupted {
